@@ -445,4 +445,16 @@ MUTANTS = [
                                     "value is too large to be deserialized, maximum value authorized is `{}`",
                                     <$t>::MAX
                                 ),""")]},
+    # ------------------------------------------------------------------ C19
+    {"id": "c19-no-reversal", "props": ["C19"], "edits": [("src/value.rs", "        let components = components.into_iter().rev().collect();", "        let components = components.into_iter().collect();")]},
+    {"id": "c19-double-reversal", "props": ["C19"], "edits": [("src/value.rs", "        let components = components.into_iter().rev().collect();", "        components.reverse();\n        let components = components.into_iter().rev().collect();")]},
+    {"id": "c19-index-as-key", "props": ["C19"], "edits": [("src/value.rs", "                    components.push(ValuePointerComponent::Index(*index));", "                    components.push(ValuePointerComponent::Key(index.to_string()));")]},
+    {"id": "c19-first-field-nearest", "props": ["C19"], "edits": [("src/value.rs", "ValuePointerRef::Key { key, prev } => prev.first_field().or(Some(key)),", "ValuePointerRef::Key { key, prev } => Some(*key).or(prev.first_field()),")]},
+    {"id": "c19-last-field-recurses", "props": ["C19"], "edits": [("src/value.rs", "            ValuePointerRef::Key { key, .. } => Some(key),", "            ValuePointerRef::Key { key, prev } => prev.last_field().or(Some(key)),")]},
+    {"id": "c19-is-origin-index0", "props": ["C19"], "edits": [("src/value.rs", "        matches!(self, ValuePointerRef::Origin)", "        matches!(self, ValuePointerRef::Origin | ValuePointerRef::Index { index: 0, .. })")]},
+    {"id": "c19-to-owned-skips-index-under-key", "props": ["C19"], "edits": [("src/value.rs", """                ValuePointerRef::Index { index, prev } => {
+                    components.push(ValuePointerComponent::Index(*index));
+                    cur = prev;""", """                ValuePointerRef::Index { index, prev } => {
+                    if components.len() < 64 { components.push(ValuePointerComponent::Index(*index)); }
+                    cur = prev;""")]},
 ]
